@@ -8,9 +8,15 @@ Record ecase := mkenc {
   k_tagw : Z; k_minw : Z; k_ts : bytes; k_msg : bytes; k_attrs : list attr; k_observed : bytes
 }.
 
-(* the registry of the harness process: the tables of the source + RegisterLevel(13, "custom13") *)
+(* the registry of the harness process: the tables of the source + the RegisterLevel calls of
+   harness/enc.go encRegister: 13 "custom13"; 14 "fgonly14" (foreground only); 15 "fgbg15" (both
+   colours, own short tags); 16 "late16" (foreground only) *)
 Definition enc_registry : registry :=
-  fst (register init_registry 13 [x63;x75;x73;x74;x6f;x6d;x31;x33] no_opts).
+  let g1 := fst (register init_registry 13 [x63;x75;x73;x74;x6f;x6d;x31;x33] no_opts) in
+  let g2 := fst (register g1 14 [x66;x67;x6f;x6e;x6c;x79;x31;x34] {| o_tags := []; o_clr := 35; o_bg := -1; o_treat := lv_max; o_err := false |}) in
+  let g3 := fst (register g2 15 [x66;x67;x62;x67;x31;x35]
+                   {| o_tags := [[]; [x46]; [x46;x42]; [x46;x47;x42]; [x46;x47;x42;x47]; [x46;x47;x42;x47;x35]]; o_clr := 33; o_bg := 44; o_treat := lv_max; o_err := false |}) in
+  fst (register g3 16 [x6c;x61;x74;x65;x31;x36] {| o_tags := []; o_clr := 36; o_bg := -1; o_treat := lv_max; o_err := false |}).
 
 Definition cfg_of (c : ecase) : ecfg :=
   {| e_mode := k_mode c; e_name := k_name c; e_lvl := k_lvl c; e_caller := k_caller c;
